@@ -107,12 +107,29 @@ class Histories:
             return fsutil.call(s.solve_pressure, when=t, method="lagrange_pressure")
         raise ValueError(op)
 
-    def fresh(self):
-        s, infos, ex = SC.build_series(self.spec, cm=False) if self.nframes > 1 else (None, None, None)
+    def fresh(self, shifts=None):
+        """a fresh ForSys; with `shifts` = {frame: n} the frames are BUILT from coordinates already translated n times (so that
+        nothing inside the fresh objects can be stale with respect to the data)"""
+        shifts = shifts or {}
+
+        def shifted(post, n):
+            def f(jpos, ipts):
+                if post is not None:
+                    jpos, ipts = post(jpos, ipts)
+                def mv(z):
+                    x, y = z.real, z.imag
+                    for _ in range(n):
+                        x += 0.37
+                        y -= 0.21
+                    return complex(x, y)
+                return {j: mv(z) for j, z in jpos.items()}, [[mv(z) for z in pts] for pts in ipts]
+            return f
+        spec = [dict(sp, post=shifted(sp.get("post"), shifts.get(t, 0))) if shifts.get(t, 0) else sp for t, sp in enumerate(self.spec)]
+        s, infos, ex = SC.build_series(spec, cm=False) if self.nframes > 1 else (None, None, None)
         if self.nframes == 1:
             import forsys as fs
             with fsutil.quiet():
-                v, e, c, info = T.realise(self.spec[0]["at"], k=3, cmap=self.spec[0]["cmap"])
+                v, e, c, info = T.realise(spec[0]["at"], k=3, cmap=spec[0]["cmap"], post=spec[0].get("post"))
                 s = fs.ForSys({0: T.frame_of(v, e, c, 0, 0.0)})
             infos = [info]
         if s is None:
@@ -222,16 +239,14 @@ class Histories:
                         viol.append({"what": "an external interface carries a non-zero tension", "detail": {"frame": t, "interface": beid}})
                         break
                 # differential: fresh object, only the operations that matter
-                s2, _ = self.fresh()
                 b_op, s_op, taint, bsh, allsh = solve_ctx[t]
                 # data edits up to the build (translations commute); the velocity term of a dynamic solve reads the positions
                 # at solve time, so for velocity solves the data version at solve time is used for all frames
-                for tt in range(self.nframes):
-                    nsh = allsh.get(tt, 0) if (s_op[0] == "svel" or tt != t) else bsh
-                    for _ in range(nsh):
-                        self.apply(s2, ["shift", tt])
-                if s_op[0] == "svel" and allsh.get(t, 0) != bsh:
-                    continue      # matrix built on older positions than the velocities: mixed data versions, nothing is promised
+                if s_op[0] == "svel" and (allsh.get(t, 0) != bsh or len({allsh.get(tt, 0) for tt in range(self.nframes)}) > 1):
+                    # matrix built on older positions than the velocities, or frames translated by different amounts (a fresh
+                    # series built from such data would be tracked differently): nothing is promised
+                    continue
+                s2, _ = self.fresh({tt: (allsh.get(tt, 0) if (s_op[0] == "svel" or tt != t) else bsh) for tt in range(self.nframes)})
                 for op in ([b_op] if b_op else []) + [s_op]:
                     if op[0] == "bsys":
                         fsutil.call(s2.get_system_velocity_per_frame)
